@@ -85,13 +85,17 @@ type pipeRun struct {
 	tracked      atomic.Int64
 	stopReturned atomic.Int64
 	started      bool
+	// ready is closed once controler.Start() has returned (and, in SIGTERM mode, WatchSignals is
+	// installed). A stop fired by a trigger waits for it: the real command line only starts watching
+	// signals after Start() returned, so a stop overlapping Start() is a schedule Zeno cannot have.
+	ready        chan struct{}
 	actionsFired []string
 }
 
 func (p *pipeRun) nextSeq() int64 { return p.seq.Add(1) }
 
 func newPipeRun(dir string, cfg pipeConfig) *pipeRun {
-	return &pipeRun{Cfg: cfg, Dir: dir, counts: map[string]int{}, itemHooks: map[string]func(any, int64){}}
+	return &pipeRun{Cfg: cfg, Dir: dir, counts: map[string]int{}, itemHooks: map[string]func(any, int64){}, ready: make(chan struct{})}
 }
 
 func (p *pipeRun) applyConfig(inputSeeds []string) error {
@@ -214,17 +218,32 @@ func (p *pipeRun) fire(t trigger) {
 		syscall.Kill(os.Getpid(), syscall.SIGKILL)
 		select {}
 	case "sigterm":
-		if !p.stopCalled.CompareAndSwap(0, p.nextSeq()) {
-			return // a second SIGTERM would force-exit the process (that is by design of WatchSignals)
-		}
-		syscall.Kill(os.Getpid(), syscall.SIGTERM)
+		go func() {
+			<-p.ready
+			if !p.stopCalled.CompareAndSwap(0, p.nextSeq()) {
+				return // a second SIGTERM would force-exit the process (that is by design of WatchSignals)
+			}
+			syscall.Kill(os.Getpid(), syscall.SIGTERM)
+		}()
 	case "stop":
-		go p.stop()
+		go func() { <-p.ready; p.stop() }()
 	case "pause":
 		go pause.Pause("verif trigger")
 	case "resume":
 		go pause.Resume()
 	}
+}
+
+// start runs controler.Start() as cmd/get_*.go does, optionally followed by WatchSignals, and then
+// lets pending stop triggers through.
+func (p *pipeRun) start(watchSignals bool) {
+	controler.Start()
+	if watchSignals {
+		go controler.WatchSignals()
+		time.Sleep(20 * time.Millisecond) // signal.Notify is the first statement of WatchSignals
+	}
+	p.started = true
+	close(p.ready)
 }
 
 func (p *pipeRun) stop() {
